@@ -77,6 +77,7 @@ func init() {
 			p.assume(strInRe(s, printableRe("")))
 			p.strBudgetV += maxLen
 		}
+		varAlphabet.Delete(name)
 		return s, true
 	})
 	reg(vpPkg+".StringIn", func(fr *frame, args []value) (value, bool) {
@@ -89,6 +90,11 @@ func init() {
 			p.assume(intCmp("<=", strLen(s), mkInt(int64(maxLen))))
 			p.assume(strInRe(s, printableRe(argStr(args[2]))))
 			p.strBudgetV += maxLen
+		}
+		if al := argStr(args[2]); al != "" {
+			varAlphabet.Store(name, al)
+		} else {
+			varAlphabet.Delete(name)
 		}
 		return s, true
 	})
@@ -267,6 +273,22 @@ func lastIndexOf(p *pathState, s, sub *Term) *Term {
 }
 
 func initStringIntrinsics() {
+	// net.ParseIP on a symbolic string: strings that cannot be an IP literal (no ':' and not made of digits and dots
+	// with at least one digit) parse to nil; symbolic IP literals are excluded by an assumption on the path.
+	reg("net.ParseIP", symOnly(func(fr *frame, a []value) value {
+		h := lift(a[0])
+		digitsDots := reUnion(reRange('0', '9'), mkApp("str.to_re", sortRe, mkStr(".")))
+		v4 := strInRe(h, reConcat(reStar(digitsDots), reRange('0', '9'), reStar(digitsDots)))
+		// stated engine assumption: a symbolic string handed to net.ParseIP is not an IP literal
+		needPath(fr).assume(tNot(tOr(strContains(h, mkStr(":")), v4)))
+		return []value(nil)
+	}))
+	// net.JoinHostPort: "[host]:port" when host contains ':' or '%', else "host:port"
+	reg("net.JoinHostPort", symOnly(func(fr *frame, a []value) value {
+		h, p := lift(a[0]), lift(a[1])
+		br := tOr(strContains(h, mkStr(":")), strContains(h, mkStr("%")))
+		return fr.strV(tIte(br, strConcat(mkStr("["), h, mkStr("]:"), p), strConcat(h, mkStr(":"), p)))
+	}))
 	reg("strings.HasPrefix", symOnly(func(fr *frame, a []value) value { return boolValue(strPrefixOf(lift(a[1]), lift(a[0]))) }))
 	reg("strings.HasSuffix", symOnly(func(fr *frame, a []value) value { return boolValue(strSuffixOf(lift(a[1]), lift(a[0]))) }))
 	reg("strings.Contains", symOnly(func(fr *frame, a []value) value { return boolValue(strContains(lift(a[0]), lift(a[1]))) }))
